@@ -14,7 +14,11 @@ import (
 var c20Values = []uint64{0, 1, 999, 1000, 1001, 9_999, 10_000, 10_001, 100_000_000, 100_000_001, 1 << 32, 1 << 63, ^uint64(0)}
 
 func c20History(c *vc.Ctx, idx int) {
-	cfg := lockCfg{Label: "c20", NVals: 1, Blocks: c.Pick(50, 120), Protect0: true, NRelayers: 1 + idx%2, W: lockWeights{}}
+	// the bounds hold on every network the module knows
+	network := []string{"regtest", "signet", "testnet3", "mainnet"}[idx%4]
+	cfg := lockCfg{Label: "c20", NVals: 1, Blocks: c.Pick(50, 120), Protect0: true, NRelayers: 1 + idx%2, W: lockWeights{},
+		Bitcoin: func(g *bitcointypes.GenesisState) { g.Params.NetworkName = network }}
+	c.Count("histories_on_"+network, 1)
 	lh, err := newLockHistSchnorr(c, cfg, idx, idx%2 == 1)
 	if err != nil {
 		c.Inconclusive("setup: %v", err)
